@@ -299,6 +299,26 @@ func c07History(r *core.Result, rng *rand.Rand) bool {
 	live = append(live, c07Header(rng))
 	var hist []string
 	interesting := false
+	// stale: references that used to be in a header and were removed or
+	// replaced; callers may still hold them and use them.
+	var stale []*sam.Reference
+	// merges: the links MergeHeaders returned, with a snapshot taken then;
+	// later edits of any header must not change what the caller was given.
+	type mergeRec struct {
+		links [][]*sam.Reference
+		snap  [][]*sam.Reference
+		op    string
+	}
+	var merges []mergeRec
+	refsOf := func() map[*sam.Reference]bool {
+		m := map[*sam.Reference]bool{}
+		for _, h := range live {
+			for _, x := range h.Refs() {
+				m[x] = true
+			}
+		}
+		return m
+	}
 	names := []string{"chr0", "chr1", "chr2", "chrX", "chrM", "alt1"}
 	check := func() bool {
 		for k, h := range live {
@@ -325,6 +345,7 @@ func c07History(r *core.Result, rng *rand.Rand) bool {
 	for step := 0; step < 30; step++ {
 		h := live[rng.Intn(len(live))]
 		var opname string
+		before := refsOf()
 		pv, st := core.Recover(func() {
 			switch x := rng.Intn(16); x {
 			case 0, 1: // AddReference: new / clone / same name other tags / foreign
@@ -420,6 +441,13 @@ func c07History(r *core.Result, rng *rand.Rand) bool {
 				opname = fmt.Sprintf("MergeHeaders(%d)", n)
 				m, links, err := sam.MergeHeaders(src)
 				interesting = true
+				if err == nil && m != nil && links != nil {
+					mr := mergeRec{links: links, op: opname}
+					for _, l := range links {
+						mr.snap = append(mr.snap, append([]*sam.Reference(nil), l...))
+					}
+					merges = append(merges, mr)
+				}
 				if err == nil && m != nil {
 					if len(live) < 6 {
 						live = append(live, m)
@@ -494,6 +522,19 @@ func c07History(r *core.Result, rng *rand.Rand) bool {
 				if err == nil && nh != nil && len(live) < 6 {
 					live = append(live, nh)
 				}
+			case 14:
+				// use a reference that was removed or replaced earlier
+				if len(stale) > 0 {
+					x := stale[rng.Intn(len(stale))]
+					if rng.Intn(2) == 0 {
+						n := names[rng.Intn(len(names))]
+						opname = fmt.Sprintf("SetName(stale %s->%s)", x.Name(), n)
+						x.SetName(n)
+					} else {
+						opname = fmt.Sprintf("AddReference(stale %s)", x.Name())
+						h.AddReference(x)
+					}
+				}
 			default:
 				opname = "MarshalText"
 				h.MarshalText()
@@ -513,6 +554,28 @@ func c07History(r *core.Result, rng *rand.Rand) bool {
 		}
 		if len(r.Viol) > 0 || !check() {
 			return false
+		}
+		// references that dropped out of every header are stale from now on
+		after := refsOf()
+		for x := range before {
+			if !after[x] && len(stale) < 12 {
+				stale = append(stale, x)
+			}
+		}
+		// what MergeHeaders handed out must not change under later edits
+		for _, mr := range merges {
+			for i := range mr.links {
+				for j := range mr.links[i] {
+					if j >= len(mr.snap[i]) || mr.links[i][j] != mr.snap[i][j] {
+						op := opname
+						if k := strings.IndexByte(op, '('); k > 0 {
+							op = op[:k]
+						}
+						r.Violate("merge|links-changed-later|"+op, "the links returned by %s changed after %s: links[%d][%d] was %s and is now %s\nhistory: %v", mr.op, opname, i, j, mr.snap[i][j].Name(), mr.links[i][j].Name(), hist)
+						return false
+					}
+				}
+			}
 		}
 	}
 	return interesting
